@@ -9,6 +9,8 @@
 //!   signal N       instead of exiting: journal `end <name> <ns> <128+N>`, then send signal N to the process whose pid is the
 //!                  second argument (`$$` of the shell xvc runs the command with: the shell itself, or this process when the
 //!                  shell exec'ed it) so that xvc sees a command TERMINATED BY A SIGNAL, not an exit code
+//!   closefds M     after the output (before sleeping) close stdout (M=1), stderr (M=2) or both (M=3), like a command that starts
+//!                  with `exec > run.log 2>&1`: xvc sees end-of-file on the pipes while the command is still running
 //!   sigtouch 1     with `signal`: write the declared outputs before the signal (a killed command that left its output)
 //! Journal `.ctl/journal` (O_APPEND, one write per line):
 //!   start <name> <monotonic ns>
@@ -48,6 +50,7 @@ fn main() {
     let shell_pid = std::env::args().nth(2).unwrap_or_default();
     let (mut sleep_ms, mut rc, mut out, mut err) = (0u64, 0i32, 0usize, 0usize);
     let (mut signal, mut sigtouch) = (0i32, false);
+    let mut closefds = 0i32;
     let mut touch: Vec<String> = vec![];
     for l in ctl.lines() {
         let mut it = l.splitn(2, ' ');
@@ -58,6 +61,7 @@ fn main() {
             (Some("err"), Some(v)) => err = v.trim().parse().unwrap_or(0),
             (Some("touch"), Some(v)) => touch.push(v.trim().to_string()),
             (Some("signal"), Some(v)) => signal = v.trim().parse().unwrap_or(0),
+            (Some("closefds"), Some(v)) => closefds = v.trim().parse().unwrap_or(0),
             (Some("sigtouch"), Some(v)) => sigtouch = v.trim() == "1",
             _ => {}
         }
@@ -73,6 +77,16 @@ fn main() {
         let buf = vec![b'o'; out];
         let _ = std::io::stdout().write_all(&buf);
         let _ = std::io::stdout().write_all(b"\n");
+    }
+    if closefds > 0 {
+        use std::os::unix::io::FromRawFd;
+        let _ = std::io::stdout().flush();
+        for fd in [1, 2] {
+            if closefds & fd != 0 {
+                // the pipe to xvc is closed here; the command keeps running
+                drop(unsafe { std::fs::File::from_raw_fd(fd) });
+            }
+        }
     }
     if sleep_ms > 0 {
         std::thread::sleep(Duration::from_millis(sleep_ms));
